@@ -72,6 +72,11 @@ def plss_text(draw):
     text = tr + draw(st.sampled_from([" ", "\n"])) + draw(st.sampled_from(["\n", ", ", "; "])).join(parts)
     if draw(st.integers(0, 4)) == 0:
         text = "Stray words " + text
+    if draw(st.integers(0, 7)) == 0:
+        # a shape on which sec_within decides where the text goes
+        text = draw(st.sampled_from(["That part of Sec 14, T154N-R97W lying north of the river, Lots 1, 1",
+                                     "T154N-R97W All that portion of the NE/4 of Section 14 lying within the right-of-way",
+                                     "NE/4, NE/4 of Sec 14, TI54N-R97W, containing 40 acres"]))
     return text
 
 
